@@ -14,6 +14,9 @@ CONSTANTS
   BitmapExcludeExact = FALSE
   ProvidersAgree = TRUE
   DeleteDropsPacked = TRUE
+  BitmapHonoursShallow = TRUE
+  CgOctopusOk = TRUE
+  MaxParents = 2
   CgHonoursShallow = TRUE
   Focus = "all"
 INVARIANT TypeOK
